@@ -140,7 +140,7 @@ func (e *Engine) shapedParam(st *State, p *ssa.Parameter, shape string) Value {
 		return VIface{Typ: types.NewSlice(types.Typ[types.Byte]), V: sym(b)}
 	case "json":
 		j := st.declare("in."+name+".json", SJson)
-		st.assume(Not(Eq(j, Term{"JNULL", SJson})))
+		st.assume(Not(Eq(j, mkT("JNULL", SJson))))
 		return VIface{Typ: nil, V: VAbs{Kind: "json", ID: e.nextID(), Data: j}}
 	case "tx":
 		return VIface{V: VAbs{Kind: "tx", ID: e.nextID(), Data: name}}
@@ -200,6 +200,7 @@ func (e *Engine) verifyFunction(ct *Contract, prop string, tier string) *fnResul
 		goals  []pathGoal
 		ex     *exitPath
 		pre    *State
+		extra  []string
 	}
 	var vcs []vc
 	mustfailSeen := map[string]bool{}
@@ -382,7 +383,19 @@ func (e *Engine) verifyFunction(ct *Contract, prop string, tier string) *fnResul
 							goals[gi].obl.Variant = vname
 						}
 					}
-					vcs = append(vcs, vc{header: e.scriptHeader(ex.st, preX), goals: goals, ex: ex, pre: preX})
+					var extra []string
+					for _, l := range ct.Lets {
+						if sv, ok := env.vars[l.Name].(VSym); ok && !sv.T.IsConst() && len(sv.T.S) < 2000 {
+							if sv.T.Sort == SRow {
+								extra = append(extra, fmt.Sprintf("(r.present %s)", sv.T.S), fmt.Sprintf("(b.isnil (r.value %s))", sv.T.S),
+									fmt.Sprintf("(r.tombstone %s)", sv.T.S), fmt.Sprintf("(r.cas %s)", sv.T.S), fmt.Sprintf("(r.exp %s)", sv.T.S),
+									fmt.Sprintf("(r.rev %s)", sv.T.S), fmt.Sprintf("(r.isJSON %s)", sv.T.S), fmt.Sprintf("(b.isnil (r.xattrs %s))", sv.T.S))
+							} else {
+								extra = append(extra, sv.T.S)
+							}
+						}
+					}
+					vcs = append(vcs, vc{header: e.scriptHeader(ex.st, preX), goals: goals, ex: ex, pre: preX, extra: extra})
 				}
 			}
 		}
@@ -445,7 +458,7 @@ func (e *Engine) verifyFunction(ct *Contract, prop string, tier string) *fnResul
 				}
 			}
 			if rs[j].Status != "unsat" {
-				vals := modelTerms(v.ex, v.pre)
+				vals := append(modelTerms(v.ex, v.pre), v.extra...)
 				rm := e.solver.model("z3-new", v.header, gs[j], vals, e.goalTimeout)
 				if rm.Status == "sat" {
 					rs[j].Status = "sat"
